@@ -1,5 +1,5 @@
 SPECIFICATION Spec
-CONSTANTS MaxLen = 8 NumGens = 3 Defect = "none" Impls = {"RayTracing", "Interpolation", "FromFile"}
+CONSTANTS MaxLen = 7 NumGens = 3 Defect = "none" Impls = {"RayTracing", "Interpolation", "FromFile"}
 INVARIANTS InvCache InvGet InvLast InvGen InvSetUp InvRefused InvKey
 VIEW View
 CHECK_DEADLOCK FALSE
